@@ -669,6 +669,8 @@ func c32Classes(c *vs.Case, w *worldgen.World, b *worldgen.Built, i int, f *c32F
 	flag(f.createValueFail > 0, "block:failed-create-with-value")
 	flag(f.failedTxWithValue > 0, "block:failed-tx-with-value")
 	flag(f.burned.Sign() > 0, "block:selfdestruct-burn>0")
+	flag(f.burned.Sign() > 0, "burn>0:"+w.Variant.Name)
+	flag(f.sdEffective > 0, "selfdestruct:"+w.Variant.Name)
 	flag(len(blk.Withdrawals()) > 0, "block:withdrawals")
 	flag(len(blk.Uncles()) > 0, "block:uncle")
 	flag(blk.BaseFee() != nil && blk.BaseFee().Sign() == 0, "block:basefee-0")
